@@ -7,9 +7,9 @@ CONSTANTS
   Prod = {p1, p2}
   Cons = {c1, c2}
   Cap = 2
-  NSend = 2
-  NRecv = 2
-  TwoStep = TRUE
+  NSend <- S22
+  NRecv <- R22
+  TwoStep = FALSE
   PhotonSend = TRUE
   Timed = FALSE
   Bug = "none"
